@@ -280,6 +280,14 @@ def W1_mv_mutators(ctx):
                     [c for c in calls_in(base) if norm_callee(c[1]).endswith('BTreeMap::get_mut')][0][2][1] == ('arg', 2)
                 if not ok:
                     bad.append(e)
+    for p in feasible(mm.paths()):
+        for a in p.events:
+            if a.kind == 'atom' and a.d['term'][0] == 'discr' and a.d['outcome'] == 'Some' and has_call(a.d['term'][1], 'BTreeMap::get_mut'):
+                i = idx_of(p, a)
+                nxt = p.events[i + 1:i + 6]
+                if not [e for e in nxt if e.kind == 'assign' and e.d['place'][0] == 'field' and e.d['place'][2].endswith('MemoryEntry.estimate')] or \
+                        [e for e in nxt[:2] if e.kind == 'atom']:
+                    bad.append(a)
     ctx.ob('W1', mm, 'marks-own-entries-as-estimate', n >= 1 and not bad, '', site=mm.loc(mm.b['lo']),
            what='mark_mv_estimate(txid, write set) sets estimate on the entries keyed by txid for every location of the set')
     # finish_incarnation: estimate = !blocking_txs.is_empty()
@@ -453,7 +461,7 @@ def D2_publish_writes(ctx):
         # events of this iteration: until the next iterator call
         rest = []
         for e in p.events[i0 + 1:]:
-            if e.kind == 'call' and e.d['callee'].endswith('::next') and mentions(e.d['args'][0], ('arg', 2)):
+            if e.kind == 'call' and e.d['callee'].endswith('::next') and mentions(e.d['args'][0], ('arg', 2)) and not has_call(e.d['args'][0], 'Account::changed_storage_slots'):
                 break
             rest.append(e)
         pubs = [e for e in rest if is_call(e, 'IncarnationDb::publish_value')]
@@ -545,6 +553,20 @@ def D2_publish_writes(ctx):
             cs = [e for e in rest if is_call(e, 'Account::changed_storage_slots')]
             if not cs:
                 bad.append((p, f'{kind}: changed storage slots not published'))
+            # every changed slot of this account is published (no conditional skip inside the slot loop)
+            for j, x in enumerate(rest):
+                if x.kind == 'atom' and x.d['term'][0] == 'discr' and x.d['outcome'] == 'Some' and x.d['term'][1][0] == 'call' and x.d['term'][1][1].endswith('::next') \
+                        and has_call(x.d['term'][1], 'Account::changed_storage_slots'):
+                    nxt = rest[j + 1:j + 12]
+                    pubs_here = [y for y in nxt if is_call(y, 'IncarnationDb::publish_value') and variant_of(y.d['args'][1]) == 'Storage']
+                    between = []
+                    for y in nxt:
+                        if pubs_here and y is pubs_here[0]:
+                            break
+                        if y.kind == 'atom':
+                            between.append(y)
+                    if not pubs_here or between:
+                        bad.append((p, f'{kind}: a changed storage slot is not published unconditionally'))
             for e in pv.get('Storage', []):
                 v = e.d['args'][2]
                 if not (v[0] == 'agg' and v[2] == 'Storage' and mentions_field(v, 'EvmStorageSlot.present_value')):
